@@ -43,27 +43,11 @@ def inst_operator(sn):
 
 
 def results_inst(run):
-    inst, uu = run["inst"], run["uuids"]
-    return {
-        "__class__": "Results",
-        "atom_order": inst["atom_order"],
-        "total_duration": inst["total_duration"],
-        "tagmap": {t: uu[t] for t in inst["tags"]},
-        "results": {uu[t]: inst["tags"][t]["values"] for t in inst["tags"]},
-        "times": {uu[t]: inst["tags"][t]["times"] for t in inst["tags"]},
-    }
+    return c17_impl.results_model_inst(run["inst"])
 
 
 def results_dec_inst(run):
-    d, uu = run["dec"], run["uuids"]
-    return {
-        "__class__": "Results",
-        "atom_order": d["atom_order"],
-        "total_duration": d["total_duration"],
-        "tagmap": {t: uu[t] for t in d["tags"]},
-        "results": {uu[t]: d["tags"][t]["values"] for t in d["tags"]},
-        "times": {uu[t]: d["tags"][t]["times"] for t in d["tags"]},
-    }
+    return c17_impl.results_model_inst(run["dec"])
 
 
 class C17(PropCheck):
